@@ -41,6 +41,56 @@ def histories(depth, maxn, free_none=False):
     return out
 
 
+def bulk_histories(depth, maxn):
+    """histories with the bulk operations: alloc n | free of the k-th result since the last free_all | free_all | blocks();
+    a final blocks() and a request for the whole partition close every history ("after free_all everything is free")"""
+    out = []
+
+    def rec(h, first, allocs):
+        if len(h) == depth:
+            out.append(list(h))
+            return
+        for n in range(1, maxn + 1):
+            h.append(['a', n])
+            rec(h, first, allocs + 1)
+            h.pop()
+        for k in range(first, allocs):
+            h.append(['f', k])
+            rec(h, first, allocs)
+            h.pop()
+        for o in (['A'], ['B']):
+            h.append(o)
+            rec(h, allocs if o == ['A'] else first, allocs)
+            h.pop()
+    rec([], 0, 0)
+    return out
+
+
+def bulk_cases(thorough):
+    """non-zero reserved counts x client offsets x the bulk operations, through Server -> Buffer / buses"""
+    cases = []
+    hs = bulk_histories(5 if thorough else 4, 2)
+    cfgs = [(1, 32, 2), (0, 24, 3)] + ([(3, 32, 4), (0, 24, 2), (1, 20, 0)] if thorough else [])
+    for client, total, reserved in cfgs:
+        per = total // 4 - reserved
+        for h in hs:
+            cases.append(dict(kind='srv', what='buf', client=client, logins=4, total=total, reserved=reserved,
+                              hist=h + [['B'], ['A'], ['B'], ['a', per]], tiebreak='all'))
+    for what in SPACES:     # blocks() of the bus allocators too (no free_all there), every reserved count 0..3
+        for reserved in (0, 1, 2, 3):
+            for client in (0, 2):
+                per = 6 - reserved
+                for h in ([['a', 1], ['a', 2], ['B'], ['f', 0], ['B'], ['a', 1], ['B']],
+                          [['a', per], ['B'], ['f', 0], ['B'], ['a', 1], ['a', per - 1], ['B']],
+                          [['a', 1], ['a', 1], ['a', 1], ['f', 1], ['B'], ['f', 2], ['B'], ['f', 0], ['B']]):
+                    h = list(h)
+                    if what == 'buf':
+                        h += [['a', 1], ['A'], ['B'], ['a', per]]
+                    cases.append(dict(kind='srv', what=what, client=client, logins=4, total=24, reserved=reserved, hist=h,
+                                      tiebreak='all'))
+    return cases
+
+
 def nontrivial(h):
     """a free of something allocated earlier, followed later by an alloc (the reuse / coalescing path)"""
     freed = False
@@ -213,6 +263,8 @@ def behaviour_to_case(b):
         op = st['op']
         if op['n'] == 'alloc':
             hist.append(['a', op['x']])
+        elif op['n'] == 'freeall':
+            hist.append(['A'])
         elif op['x'] == -1:
             hist.append(['fn'])
         else:
@@ -328,18 +380,18 @@ def run(ctx):
     from harness.tlc import TlcError
 
     def t_alloc():
-        r = ctx.model_check('Alloc', 'Alloc%s.cfg' % sfx, require_cover=('Alloc', 'Free'), timeout=900, workers=6)
+        r = ctx.model_check('Alloc', 'Alloc%s.cfg' % sfx, require_cover=('Alloc', 'Free', 'FreeAll'), timeout=900, workers=6)
         ctx.expect_ok(r, 'Alloc L1')
         r = ctx.model_check('NodeIds', 'NodeIds.cfg', require_cover=('Alloc',), timeout=600, workers=2)
         ctx.expect_ok(r, 'NodeIds')
 
     def t_impl():
-        r = ctx.model_check('AllocImpl', 'AllocImpl.cfg', require_cover=('Alloc', 'Free'), timeout=900, workers=6,
+        r = ctx.model_check('AllocImpl', 'AllocImpl.cfg', require_cover=('Alloc', 'Free', 'FreeAll'), timeout=900, workers=6,
                             label='depth-bounded, history variables, StepRefines as invariant')
         ctx.expect_ok(r, 'AllocImpl refines Alloc (bounded)')
         # (thorough: TLC's -coverage triples the time of the big run; the run above is the vacuity guard)
         r = ctx.model_check('AllocImpl', 'AllocImpl%s.cfg' % ('_thorough' if thorough else '_full'),
-                            require_cover=() if thorough else ('Alloc', 'Free'), timeout=1500, workers=8,
+                            require_cover=() if thorough else ('Alloc', 'Free', 'FreeAll'), timeout=1500, workers=8,
                             label='complete reachable state space (VIEW = implementation state)')
         ctx.expect_ok(r, 'AllocImpl refines Alloc (complete)')
         ctx.cov['impl_model_complete_states'] = r.distinct
@@ -366,14 +418,14 @@ def run(ctx):
 
     def raw(cfgs, hs):
         for size, pos, off in cfgs:
-            cases.extend(dict(kind='raw', size=size, pos=pos, off=off, hist=h, tiebreak='all') for h in hs)
+            cases.extend(dict(kind='raw', size=size, pos=pos, off=off, hist=h + [['B']], tiebreak='all') for h in hs)
 
     def srv(whats, clients, hs):
         for what in whats:
             for client in clients:
                 total, reserved = (24, 1) if client != 1 else (20, 0)     # 6 resp. 5 addresses per client
                 cases.extend(dict(kind='srv', what=what, client=client, logins=4, total=total, reserved=reserved,
-                                  hist=h, tiebreak='all') for h in hs)
+                                  hist=h + [['B']], tiebreak='all') for h in hs)
     if thorough:
         depth, sdepth, fdepth = 7, 6, 5
         raw([(5, 1, 5), (6, 0, 12), (6, 2, 0)], histories(7, 3))
@@ -418,6 +470,9 @@ def run(ctx):
         cases.append(dict(kind='srv', what=rnd.choice(SPACES), client=client, logins=4, total=4 * per + rnd.randint(0, 3),
                           reserved=rnd.choice([0, 0, 1, 2]), tiebreak='random', seed=rnd.randrange(1 << 30),
                           hist=random_history(rnd, rnd.randint(20, 80), 5)))
+    nbulk0 = len(cases)
+    cases += bulk_cases(thorough)
+    ctx.cov['bulk_operation_histories'] = len(cases) - nbulk0
     # registration: the layout is the one the server reports; two clients of one server never overlap
     nreg0 = len(cases)
     cases += reg_cases(thorough, 'handler') + reg_exhaustive(thorough)
@@ -460,7 +515,9 @@ def run(ctx):
                        'free of a failed alloc), free(None)} x every tie-break on raw ContiguousBlockAllocator(size,pos,addr_offset) '
                        'for sizes 4-8, pos 0-2, offsets 0/size/2*size/3*size; fill-then-fragment family (all sequences of %d '
                        'frees/re-allocs after filling with 1-blocks); all histories of up to %d calls through Server(client 0,1,3) '
-                       '-> AudioBus/ControlBus/Buffer(+new_consecutive); registration sweep: local max_logins 1/2/4/8 x logins reported by '
+                       '-> AudioBus/ControlBus/Buffer(+new_consecutive); blocks() after every history; bulk family: all histories of 4(5) calls '
+                       'over {alloc, free, Buffer.free_all, blocks()} with reserved_buffers 2/3(/4) and client offsets, each closed by '
+                       'free_all + a request for the whole partition; registration sweep: local max_logins 1/2/4/8 x logins reported by '
                        'the server none/2/4/8 x assigned ids 0,1,last x 3 spaces, two Server objects per layout, via the login handler '
                        '(NRT) and via the /done /notify reply (RT), probing + all histories of 3(4) calls; %d seeded random histories (20-120 calls, sizes 8-32, '
                        'offsets 0/size/3*size/odd); %d simulated L2 behaviours replayed; node-id runs for clients {0,1,3,31,..} '
